@@ -98,6 +98,21 @@ def r2_arrival(L, repo):
         L.ob("C03.R2", F, fn, "enqueue call is not inside a loop (at most once per arrival)",
              None, canon(cfg.in_loop(node)) if cfg.in_loop(node) is not None else None,
              cfg.in_loop(node) is None, c.lineno)
+    # ... and every path that has the message and a running transceiver reaches the enqueue: all other exits are
+    # guarded by "no message" or "not running" (edge dominance misses an exit hidden under a condition both of whose
+    # outcomes can still reach the enqueue, so the exits themselves are examined)
+    app_ids = {cfg.node_of(c).id for c in apps}
+    for c in apps:
+        arg = canon(c.args[0]) if c.args else None
+        for n_ in cfg.nodes:
+            if n_.kind != "stmt" or not isinstance(n_.ast, (ast.Return, ast.Raise)):
+                continue
+            if any(cfg.reachable(cfg.node_of(c), n_) for c in apps) and not isinstance(n_.ast, ast.Raise):
+                continue           # the return after the enqueue
+            lits_ = guard_literals(cfg, n_)
+            rejected = (arg, False) in lits_ or ("self.running", False) in lits_ or ("None is %s" % arg, True) in lits_
+            L.ob("C03.R2", F, fn, "an exit without enqueueing is taken only for a missing message or an idle transceiver",
+                 "guarded by `not %s` or `not self.running`" % arg, lit_fmt(lits_), rejected, n_.line)
     # recv_tx_msg returns the message only after the version matched
     F2 = rel("data_if")
     L.unit(F2)
